@@ -23,17 +23,17 @@ fn and_then_poll_ready() {
     let r = out_of_rdy(&s.poll_ready(&mut cx));
     let (ra, rb) = (rdy_out(A), rdy_out(B));
     // ready only if every inner service is ready
-    assert_eq!(r == Out::Ok(0), ra == Out::Ok(0) && rb == Out::Ok(0));
+    assert!((r == Out::Ok(0)) == (ra == Out::Ok(0) && rb == Out::Ok(0)));
     // an inner readiness error is reported instead of ready/pending, and it is the error of a leaf that failed
-    assert_eq!(r.is_err(), ra.is_err() || rb.is_err());
+    assert!(r.is_err() == (ra.is_err() || rb.is_err()));
     if r.is_err() { assert!(r == ra || r == rb); }
     if ra.is_err() { assert!(r == ra); }
     // pending: somebody is pending, and everybody who is pending has the current waker
     if r == Out::Pending {
         assert!(ra == Out::Pending || rb == Out::Pending);
         assert!(ra != Out::None && rb != Out::None);       // nobody whose readiness is unknown was skipped
-        if ra == Out::Pending { assert_eq!(rdy_waker(A), w); }
-        if rb == Out::Pending { assert_eq!(rdy_waker(B), w); }
+        if ra == Out::Pending { assert!(rdy_waker(A) == w); }
+        if rb == Out::Pending { assert!(rdy_waker(B) == w); }
     }
     assert!(rdy_polls(A) <= 1 && rdy_polls(B) <= 1);
     assert!(calls(A) == 0 && calls(B) == 0);
@@ -46,19 +46,22 @@ fn and_then_call() {
     let s = svc();
     let req: u8 = kani::any();
     let f = s.call(req);
-    assert_eq!(calls(A), 1);
-    assert_eq!(call_req(A), req);
-    assert_eq!(calls(B), 0);
+    assert!(calls(A) == 1);
+    assert!(call_req(A) == req);
+    assert!(calls(B) == 0);
     assert!(fut_polls(A) == 0 && fut_polls(B) == 0 && rdy_polls(A) == 0 && rdy_polls(B) == 0);
     match &f.state {
         State::A { fut, b } => { assert!(fut.id == A && !fut.done); assert!(b.is_some()); }
-        State::B { .. } => assert!(false, "call must start in state A"),
+        State::B { .. } => kani::assert(false, "call must start in state A"),
     }
 }
 
 fn state_a() -> Resp {
-    // the only constructor of State::A (AndThenService::call) always stores Some(rc) and a fresh first-stage future
-    AndThenServiceResponse { state: State::A { fut: OFut { id: A, done: false }, b: Some(Rc::new((Leaf { id: A }, Leaf { id: B }))) } }
+    // the only constructor of State::A (AndThenService::call) always stores Some(rc) and a fresh first-stage future;
+    // the service that made the future may still be alive (Rc shared) or already dropped (future is the only owner)
+    let rc = Rc::new((Leaf { id: A }, Leaf { id: B }));
+    if kani::any() { core::mem::forget(rc.clone()); }
+    AndThenServiceResponse { state: State::A { fut: OFut { id: A, done: false }, b: Some(rc) } }
 }
 fn state_b() -> Resp {
     AndThenServiceResponse { state: State::B { fut: OFut { id: B, done: false } } }
@@ -74,30 +77,30 @@ fn and_then_poll_from_state_a() {
     let mut cx = Context::from_waker(&wk);
     let r = out_of(&unsafe { Pin::new_unchecked(&mut f) }.poll(&mut cx));
     let fa = fut_out(A);
-    assert_eq!(fut_polls(A), 1);
-    assert_eq!(calls(A), 0);
+    assert!(fut_polls(A) == 1);
+    assert!(calls(A) == 0);
     match fa {
         Out::Pending => {
-            assert_eq!(r, Out::Pending);
+            assert!(r == Out::Pending);
             assert!(calls(B) == 0 && fut_polls(B) == 0);
-            assert_eq!(fut_waker(A), w);
+            assert!(fut_waker(A) == w);
             assert!(matches!(f.state, State::A { .. }));
         }
         Out::Err(e) => {
-            assert_eq!(r, Out::Err(e));
+            assert!(r == Out::Err(e));
             assert!(calls(B) == 0 && fut_polls(B) == 0);     // second stage only if the first succeeds
         }
         Out::Ok(v) => {
-            assert_eq!(calls(B), 1);                          // second stage invoked exactly once ...
-            assert_eq!(call_req(B), v);                       // ... with the first stage's response
-            assert_eq!(fut_polls(B), 1);
-            assert_eq!(r, fut_out(B));                        // and the result is what its future answered now
+            assert!(calls(B) == 1);                          // second stage invoked exactly once ...
+            assert!(call_req(B) == v);                       // ... with the first stage's response
+            assert!(fut_polls(B) == 1);
+            assert!(r == fut_out(B));                        // and the result is what its future answered now
             if r == Out::Pending {
-                assert_eq!(fut_waker(B), w);
+                assert!(fut_waker(B) == w);
                 assert!(matches!(f.state, State::B { .. }));
             }
         }
-        Out::None => assert!(false, "first-stage future must be polled"),
+        Out::None => kani::assert(false, "first-stage future must be polled"),
     }
     assert!(rdy_polls(A) == 0 && rdy_polls(B) == 0);
     core::mem::forget(wk);
@@ -112,11 +115,11 @@ fn and_then_poll_from_state_b() {
     let wk = mk_waker(w);
     let mut cx = Context::from_waker(&wk);
     let r = out_of(&unsafe { Pin::new_unchecked(&mut f) }.poll(&mut cx));
-    assert_eq!(fut_polls(B), 1);
-    assert_eq!(r, fut_out(B));
+    assert!(fut_polls(B) == 1);
+    assert!(r == fut_out(B));
     assert!(untouched(A));
-    assert_eq!(calls(B), 0);
-    if r == Out::Pending { assert_eq!(fut_waker(B), w); assert!(matches!(f.state, State::B { .. })); }
+    assert!(calls(B) == 0);
+    if r == Out::Pending { assert!(fut_waker(B) == w); assert!(matches!(f.state, State::B { .. })); }
     core::mem::forget(wk);
 }
 
@@ -153,26 +156,26 @@ fn and_then_factory_response_poll_any_state() {
     let r = out_of_init(&p);
     let (oa, ob) = (fact_out(A), fact_out(B));
     // completed inner futures are never polled again; the others at most once
-    if a_some { assert_eq!(fact_polls(A), 0); } else { assert_eq!(fact_polls(A), 1); }
-    if b_some { assert_eq!(fact_polls(B), 0); } else { assert!(fact_polls(B) <= 1); }
+    if a_some { assert!(fact_polls(A) == 0); } else { assert!(fact_polls(A) == 1); }
+    if b_some { assert!(fact_polls(B) == 0); } else { assert!(fact_polls(B) <= 1); }
     // first init error wins
-    assert_eq!(r.is_err(), oa.is_err() || ob.is_err());
-    if oa.is_err() { assert_eq!(r, oa); assert_eq!(fact_polls(B), 0); }
-    else if ob.is_err() { assert_eq!(r, ob); }
+    assert!(r.is_err() == (oa.is_err() || ob.is_err()));
+    if oa.is_err() { assert!(r == oa); assert!(fact_polls(B) == 0); }
+    else if ob.is_err() { assert!(r == ob); }
     // built exactly when both halves are available, from the right halves in the right order
     let a_avail = a_some || oa.is_ok();
     let b_avail = b_some || ob.is_ok();
-    assert_eq!(r.is_ok(), a_avail && b_avail);
+    assert!(r.is_ok() == (a_avail && b_avail));
     if let Poll::Ready(Ok(s)) = &p {
         assert!(s.0 .0.id == A && s.0 .1.id == B);
     }
     if r == Out::Pending {
         assert!(oa == Out::Pending || ob == Out::Pending);
-        if !b_some { assert_eq!(fact_polls(B), 1); }          // every still-pending inner future was polled
-        if oa == Out::Pending { assert_eq!(fact_waker(A), w); }
-        if ob == Out::Pending { assert_eq!(fact_waker(B), w); }
-        assert_eq!(f.a.is_some(), a_avail);
-        assert_eq!(f.b.is_some(), b_avail);
+        if !b_some { assert!(fact_polls(B) == 1); }          // every still-pending inner future was polled
+        if oa == Out::Pending { assert!(fact_waker(A) == w); }
+        if ob == Out::Pending { assert!(fact_waker(B) == w); }
+        assert!(f.a.is_some() == a_avail);
+        assert!(f.b.is_some() == b_avail);
     }
     assert!(new_calls(A) == 0 && new_calls(B) == 0);
     core::mem::forget(wk);
@@ -193,8 +196,8 @@ fn and_then_run_to_completion() {
         let r = out_of(&unsafe { Pin::new_unchecked(&mut f) }.poll(&mut cx));
         assert!(calls(A) == 1 && calls(B) <= 1);
         if r != Out::Pending {
-            if calls(B) == 1 { assert_eq!(r, fut_out(B)); assert!(fut_out(A).is_ok()); assert_eq!(call_req(B), match fut_out(A) { Out::Ok(v) => v, _ => 0 }); }
-            else { assert_eq!(r, fut_out(A)); assert!(r.is_err()); }
+            if calls(B) == 1 { assert!(r == fut_out(B)); assert!(fut_out(A).is_ok()); assert!(call_req(B) == (match fut_out(A) { Out::Ok(v) => v, _ => 0 })); }
+            else { assert!(r == fut_out(A)); assert!(r.is_err()); }
             break;
         }
         assert!(fut_out(A) == Out::Pending || fut_out(B) == Out::Pending);
